@@ -18,6 +18,7 @@ segv_hook_t g_segv_hook = nullptr;
 void (*g_crash_hook)(const char *sym, void *addr) = nullptr;
 LibInfo g_lib;
 volatile uint64_t g_call_seq = 0;
+volatile int g_watchdog_limit = 3;
 __thread int t_watchdog_pause = 0; // >0 while the thread is parked by the scheduler seam
 
 std::string strf(const char *fmt, ...)
@@ -221,7 +222,14 @@ static void on_fault(int sig, siginfo_t *si, void *uc)
                         if (!g_arena.classify(si->si_addr, fi)) {
                                 uintptr_t a = (uintptr_t) si->si_addr;
                                 fi.cls = (a >= g_lib.rw_lo && a < g_lib.rw_hi) ? FC_LIBDATA : FC_STRAY;
-                                fi.offset = (long) (a - g_lib.base);
+                                // the offset goes into the run's history hash: it must not depend on where the loader put things
+                                uintptr_t ab = (uintptr_t) g_arena.base;
+                                if (a >= g_lib.base && a < g_lib.rw_hi)
+                                        fi.offset = (long) (a - g_lib.base);
+                                else if (a + (1ul << 32) >= ab && a < ab + g_arena.size + (1ul << 32))
+                                        fi.offset = (long) a - (long) ab; // just outside the (fixed-base) arena, e.g. below its first slot
+                                else
+                                        fi.offset = 0;
                         }
                         fill_sym(fi, uc);
                 }
@@ -264,11 +272,15 @@ static void on_tick(int, siginfo_t *, void *uc)
                 last_seq = g_call_seq;
                 same = 0;
         }
-        if (same >= 3) {
+        if (same >= g_watchdog_limit) {
                 same = 0;
                 g->fi = FaultInfo();
                 g->fi.cls = FC_HANG;
                 fill_sym(g->fi, uc);
+                // where the tick happened to land inside the loop is not part of the verdict (it goes into the history hash)
+                g->fi.is_write = 0;
+                if (char *plus = strrchr(g->fi.sym, '+'))
+                        *plus = 0;
                 g->armed = 0;
                 siglongjmp(g->jb, 1);
         }
